@@ -34,13 +34,13 @@ CHECKS.update({
               'n=3: all functions x all 27 partial assignments x all 64 renamings x every single-variable composition with every function; sampled vector compositions; n=4 all/sampled; operand table and counts re-checked.',
               _NOTE, 'DESIGN.md section 3 C04'),
     'C05': _c('runtime monitoring: independent reader of the documented grammar as oracle for add_expr over generated formulas',
-              'Complete operator-pair/triple spelling matrices, binder templates, constants, comments, @n, random formulas to depth 5, each compared with an independent precedence-climbing evaluator and with its fully parenthesised form; to_expr round trip and independent reading of the printed text for all functions of <=3 (4: all/sampled) variables.',
+              'Complete operator-pair/triple spelling matrices, binder templates, constants, comments, @n, random formulas to depth 5 alternating between two managers (shared translator) with refused formulas and collections in between, each compared with an independent precedence-climbing evaluator and with its fully parenthesised form; to_expr round trip and independent reading of the printed text for all functions of <=3 (4: all/sampled) variables.',
               'Trusts vf/formula.py as a faithful reading of doc.md; ' + _NOTE, 'DESIGN.md section 3 C05'),
     'C10': _c(_TT + ' (support, model count, model set) over exhaustive sweeps',
-              'Every function of <=3 (4: all/sampled) variables with and without a spare declared variable: support/is_essential, count for n up to support+3 and refusal below, pick_iter for every care set (disjoint cubes inside the models covering them), pick; dd.bdd, dd.autoref, Function methods.',
+              'Every function of <=3 (4: all/sampled) variables with and without a spare declared variable: support/is_essential, count for n up to support+3 and refusal below, pick_iter for every care set (disjoint cubes inside the models covering them), pick; dd.bdd, dd.autoref, Function methods; the same queries on every held reference after every step of random histories (collections, re-use of node numbers, reordering, declaration and removal of variables).',
               _NOTE, 'DESIGN.md section 3 C10'),
     'C06': _c('runtime monitoring: reference-count ledger (count == in-edges + harness holds) and exact-collection oracle at every quiescent point of exhaustive short and long random histories; temporal cache monitor',
-              'Every sequence up to length 4 (quick) / 5-6 (thorough) over an 11-step alphabet of create/operate/hold/release/collect/rooted-collect/swap/sift on 3 variables for several function pairs, plus random histories of 400-2000 steps over 3-6 variables; after every step counts, reachability, reducedness, cache entries and held references are re-derived from the raw tables.',
+              'Every sequence up to length 4 (quick) / 5-6 (thorough) over an 11-step alphabet of create/operate/hold/release/collect/rooted-collect/swap/sift on 3 variables for several function pairs, plus random histories of 400-5000 steps over 3-6 variables, a third with dynamic reordering enabled at a tiny threshold; after every step counts, reachability, reducedness, cache entries and held references are re-derived from the raw tables.',
               'The harness is the only holder of external references; ' + _NOTE, 'DESIGN.md section 3 C06'),
     'C07': _c('runtime monitoring: before/after snapshots of held references (number, truth table, external count) around every reordering + structural monitors + swap level-index post-condition',
               'n=3: every set of one or two of the 256 functions held x both swaps x target permutations x starting orders; n=1..5 sampled held sets with garbage: every adjacent swap, every/sampled target permutation, disjoint pairings, repeated sifting under 8 (quick) / 64 (thorough) hash seeds; dd.bdd and dd.autoref.',
@@ -49,16 +49,16 @@ CHECKS.update({
               'Random dd.autoref histories (constructions, all operators, traversals creating child handles, handle copies, copies between managers, pickle/JSON round trips, drops in random order, collections, reorderings), half with dynamic reordering at a lowered threshold; at the end all handles dropped: registry empty, only the terminal left, manager __del__ passes.',
               'Cyclic collector is off in shard processes so finalisers never run inside a ledger comparison; ' + _NOTE, 'DESIGN.md section 3 C08'),
     'C09': _c('runtime monitoring with fault injection: failpoint at dd.bdd._request_reordering fires the reordering signal at the k-th request, k enumerated 1..K+1 per operation on freshly rebuilt managers; truth-table oracle + M1-M7',
-              'For 31 operation kinds (apply symbols, Function operators, ite, quantify, let x3, cube, var, add_expr, copy x3, load pickle/JSON, image, preimage, autoref find_or_add) x scenarios x every trigger position, for dd.autoref and dd.bdd; plus natural triggering at lowered and default thresholds.',
+              'For 31 operation kinds (apply symbols, Function operators, ite, quantify, let x3, cube, var, add_expr, copy x3, load pickle/JSON, image, preimage, autoref find_or_add) x scenarios x every trigger position, for dd.autoref and dd.bdd; plus natural triggering at lowered and default thresholds with refused calls (C17 catalogue) in between: reordering must stay enabled.',
               'The signal originates only in _request_reordering (module global looked up at call time); ' + _NOTE, 'DESIGN.md section 3 C09', 'fault_enumeration'),
     'C11': _c(_TT + ' read by variable name in the target manager; source snapshot comparison; target ledger',
-              'All 256 functions of 3 variables for every pair of source/target orders through six entry points (BDD.copy, copy_bdd, autoref, _copy.copy_bdd, copy_bdds_from), sampled 4-5 variable functions into targets with extra variables, pre-existing nodes and warm cache; copy_vars.',
+              'All 256 functions of 3 variables for every pair of source/target orders through six entry points (BDD.copy, copy_bdd, autoref, _copy.copy_bdd, copy_bdds_from), sampled 4-5 variable functions into targets with extra variables, pre-existing nodes, warm cache, dynamic reordering enabled and due; roots of copy_bdds_from as list/tuple/generator/iterator/dict view; copy_vars.',
               _NOTE, 'DESIGN.md section 3 C11'),
     'C12': _c(_TT + ' on loaded roots + outcome-class prediction from the documented loader rules; target ledger and structure monitors',
               'Sampled scenarios over format (pickle dd.bdd/dd.autoref, JSON, whole manager, roots=None) x target state (fresh, same, same order, other order, extra variables, subset) x levels/load_order x list/dict roots x reordered sources; refusals are legal where predicted.',
               _NOTE, 'DESIGN.md section 3 C12'),
     'C13': _c(_TT + ' (relational product) inside the documented input class',
-              'One pair + free variable exhaustive (256 relations x sets x allowed qvar subsets x both quantifiers x orders), 2-3 pairs sampled, names or levels, dd.bdd functions and dd.autoref wrappers; non-adjacent orders for image.',
+              'One pair + free variable exhaustive (256 relations x sets x allowed qvar subsets x both quantifiers x orders), 2-3 pairs sampled, names or levels, qvars as every kind of iterable, dd.bdd functions and dd.autoref wrappers; non-adjacent orders for image.',
               'Documented usage: the preimage target is a set over unprimed variables; ' + _NOTE, 'DESIGN.md section 3 C13'),
     'C14': _c('runtime monitoring: order-map monitor (four views of the bijection) + held-reference tables over the union of names after every step of exhaustive short scripts and random histories',
               'Every script up to length 4 (quick) / 5 (thorough) over 13 declaration/undeclaration/conflict/build/release/swap steps on both managers, random interleavings over up to 7 names; conflicts must raise ValueError and change nothing.',
@@ -69,7 +69,7 @@ CHECKS.update({
     'C16': _c('runtime monitoring: generated DDDMP files with an independent reader of the file text as oracle for dd.dddmp.load',
               'Random files: children-before-parents numberings, permid gaps, varinfo 0/1/3, with/without .orderedvarnames, complemented and constant roots; set of root tables of the returned manager == set evaluated from the text.',
               'DDDMP conventions as in the CUDD samples (terminal id 1, then-edge regular); ' + _NOTE, 'DESIGN.md section 3 C16'),
-    'C17': _c('runtime monitoring with fault injection: ~60 kinds of rejected calls (bad arguments, syntax errors at every token position, damaged/conflicting files) injected between the steps of random histories; M1-M7 right after each exception and at shutdown',
+    'C17': _c('runtime monitoring with fault injection: ~60 kinds of rejected calls (bad arguments, syntax errors at every token position, damaged/conflicting files) injected between the steps of random histories; M1-M7 and the reordering setting right after each exception and at shutdown',
               'dd.bdd and dd.autoref histories, dynamic reordering off and on; every raising call is followed by the full monitor set, then the history continues and finally everything is released (only the terminal may remain).',
               'A rejected call is one that raises; ' + _NOTE, 'DESIGN.md section 3 C17', 'fault_enumeration'),
     'C19': _c('runtime monitoring of the compiled wrappers (Cython + gcc) against instrumented stand-ins of the C libraries: truth-table nodes give the oracle for apply, per-node external reference counters give the ledger for Function handles and temporaries',
@@ -77,7 +77,7 @@ CHECKS.update({
               'Trusted base: the stand-ins under /verif/fake/ (~900 lines of C on 64-bit truth tables), Cython 3.0.0 and gcc; a toolchain artefact (tracebacks leaked by Cython 3.0.0 on CPython 3.12) is neutralised by clearing dead frames, see DESIGN.md section 5. Three of the four wrappers are covered; dd/cudd_zdd.pyx is not.',
               'DESIGN.md section 5'),
     'C18': _c(_TT + ' applied to re-evaluated traversals and parsed graph exports',
-              'Every function of <=3 (4: all/sampled) variables and sampled root sets: traversal via Function/succ, descendants/sizes vs own reachability, to_nx graph and DOT text re-read and evaluated.',
+              'Every function of <=3 (4: all/sampled) variables and sampled root sets: traversal via Function/succ, descendants/sizes vs own reachability, to_nx graph and DOT text re-read and evaluated; the same views of held references after every step of random histories (node numbers re-used, nodes relabelled by reordering).',
               _NOTE + ' DOT legend as documented in doc.md.', 'DESIGN.md section 3 C18'),
 })
 
